@@ -14,6 +14,7 @@ import (
 	"go/token"
 	"go/types"
 	"sort"
+	"strconv"
 	"strings"
 
 	"golang.org/x/tools/go/ssa"
@@ -61,7 +62,7 @@ type bsPath struct {
 	vals []ssa.Value // returned values (after retVals)
 	fn   *ssa.Function
 	env  map[string]string // param renaming in effect (callee "$p" -> caller atom)
-	pe    map[*ssa.Phi]ssa.Value
+	pe   map[*ssa.Phi]ssa.Value
 }
 
 type boolSummer struct {
@@ -172,6 +173,29 @@ func (bs *boolSummer) summarise(fn *ssa.Function, env map[string]string, depth i
 		}
 		if onPath[b] {
 			ok = false // loop
+			return
+		}
+		// a membership loop over a constant table is a disjunction: x == k1 || x == k2 || ...
+		if ml, isML := membershipLoopAt(b); isML && (pred == nil || !ml.inLoop[pred]) {
+			subj, _ := normValueName(ml.subject, env)
+			cur := cond
+			for _, k := range ml.consts {
+				atom := subj + "==" + k
+				if c := cur.with(atom, true); c != nil {
+					onPath[b] = true
+					walk(ml.hit, ml.body, c, phiEnv)
+					onPath[b] = false
+				}
+				cur = cur.with(atom, false)
+				if cur == nil {
+					break
+				}
+			}
+			if cur != nil {
+				onPath[b] = true
+				walk(ml.exit, b, cur, phiEnv)
+				onPath[b] = false
+			}
 			return
 		}
 		if len(out) > bs.maxPaths {
@@ -341,6 +365,27 @@ func (bs *boolSummer) evalBool(fn *ssa.Function, v ssa.Value, cond lits, pe map[
 					}
 					return out
 				}
+				// a pure membership test over a constant table (for _, k := range table { if x == k { return true } };
+				// return false) is the disjunction x == k1 || x == k2 || ...
+				if pi, consts, okM := membershipPredicate(g); okM && pi < len(args) {
+					subj, _ := normValueName(args[pi], env)
+					var out []boolCase
+					cur := cond
+					for _, k := range consts {
+						atom := subj + "==" + k
+						if c := cur.with(atom, true); c != nil {
+							out = append(out, boolCase{c, true})
+						}
+						cur = cur.with(atom, false)
+						if cur == nil {
+							break
+						}
+					}
+					if cur != nil {
+						out = append(out, boolCase{cur, false})
+					}
+					return out
+				}
 			}
 		}
 	}
@@ -357,15 +402,15 @@ func (bs *boolSummer) evalBool(fn *ssa.Function, v ssa.Value, cond lits, pe map[
 
 // opaqueBool: module bool functions that are kept as atoms (their meaning is the atom).
 var opaqueBool = map[string]bool{
-	"(*reservoir/proxy/headers.Header).IsPresent":                    true,
-	"(reservoir/utils/typeutils.Optional).IsSome":                    true,
-	"(reservoir/utils/typeutils.Optional).IsNone":                    true,
-	"(reservoir/utils/typeutils.Either).IsLeft":                      true,
-	"(reservoir/utils/typeutils.Either).IsRight":                     true,
-	"(*reservoir/webserver/api/apitypes.Context).IsAuthenticated":    true,
-	"(*reservoir/config.ConfigProp).Read":                            true,
-	"(*reservoir/proxy/headers.HeaderDirectives).ShouldCache":        true,
-	"(*reservoir/proxy.fetcher).shouldResponseBeCached":              true,
+	"(*reservoir/proxy/headers.Header).IsPresent":                 true,
+	"(reservoir/utils/typeutils.Optional).IsSome":                 true,
+	"(reservoir/utils/typeutils.Optional).IsNone":                 true,
+	"(reservoir/utils/typeutils.Either).IsLeft":                   true,
+	"(reservoir/utils/typeutils.Either).IsRight":                  true,
+	"(*reservoir/webserver/api/apitypes.Context).IsAuthenticated": true,
+	"(*reservoir/config.ConfigProp).Read":                         true,
+	"(*reservoir/proxy/headers.HeaderDirectives).ShouldCache":     true,
+	"(*reservoir/proxy.fetcher).shouldResponseBeCached":           true,
 }
 
 func isBoolType(t types.Type) bool {
@@ -601,4 +646,183 @@ func (bs *boolSummer) pathsTo(fn *ssa.Function, target ssa.Instruction) ([]bsPat
 	bs.target = target
 	defer func() { bs.target = old }()
 	return bs.summarise(fn, map[string]string{}, 0)
+}
+
+// membershipPredicate recognises func(x T, ...) bool { for _, k := range table { if x == k { return true } }; return false }
+// over a package-level constant table: the index of the tested parameter and the constants (as they appear in atoms).
+func membershipPredicate(g *ssa.Function) (param int, consts []string, ok bool) {
+	if g == nil || g.Blocks == nil {
+		return 0, nil, false
+	}
+	param = -1
+	var table *ssa.Global
+	simple := true
+	nFalse := 0
+	eachInstr(g, func(in ssa.Instruction) {
+		switch x := in.(type) {
+		case *ssa.Return:
+			if len(x.Results) != 1 {
+				simple = false
+				return
+			}
+			b, isC := constBool(x.Results[0])
+			if !isC {
+				simple = false
+			} else if !b {
+				nFalse++
+			}
+		case *ssa.If:
+			bo, isB := x.Cond.(*ssa.BinOp)
+			if !isB {
+				simple = false
+				return
+			}
+			if bo.Op == token.EQL {
+				var subj ssa.Value
+				var tg *ssa.Global
+				if t := tableElementOf(unconv(bo.Y)); t != nil {
+					subj, tg = bo.X, t
+				} else if t := tableElementOf(unconv(bo.X)); t != nil {
+					subj, tg = bo.Y, t
+				}
+				p, isP := unconvNum(subj).(*ssa.Parameter)
+				if tg == nil || !isP {
+					simple = false
+					return
+				}
+				idx := -1
+				for i, q := range g.Params {
+					if q == p {
+						idx = i
+					}
+				}
+				if idx < 0 || (param >= 0 && param != idx) || (table != nil && table != tg) {
+					simple = false
+					return
+				}
+				param, table = idx, tg
+				// the true edge returns true
+				tb := x.Block().Succs[0]
+				rt, isRet := tb.Instrs[len(tb.Instrs)-1].(*ssa.Return)
+				if !isRet || len(rt.Results) != 1 {
+					simple = false
+					return
+				}
+				if v, isC := constBool(rt.Results[0]); !isC || !v {
+					simple = false
+				}
+				return
+			}
+			// loop control: the counter against a constant or a length
+			switch bo.Op {
+			case token.LSS, token.LEQ, token.GTR, token.GEQ, token.NEQ:
+				_, cx := constInt(bo.X)
+				_, cy := constInt(bo.Y)
+				_, lx := lenOf(bo.X)
+				_, ly := lenOf(bo.Y)
+				if !(cx || cy || lx || ly) {
+					simple = false
+				}
+			default:
+				simple = false
+			}
+		case *ssa.Call, *ssa.Store, *ssa.MapUpdate, *ssa.Send, *ssa.Go, *ssa.Defer:
+			simple = false
+		}
+	})
+	if !simple || param < 0 || table == nil || nFalse != 1 {
+		return 0, nil, false
+	}
+	if tab, okS := globalStringTable(table); okS {
+		for _, k := range tab {
+			consts = append(consts, strconv.Quote(k))
+		}
+		return param, consts, true
+	}
+	if tab, okI := globalIntTable(table); okI {
+		for _, k := range tab {
+			consts = append(consts, strconv.FormatInt(k, 10))
+		}
+		return param, consts, true
+	}
+	return 0, nil, false
+}
+
+type memLoop struct {
+	subject   ssa.Value
+	consts    []string
+	body, hit *ssa.BasicBlock
+	exit      *ssa.BasicBlock
+	inLoop    map[*ssa.BasicBlock]bool
+}
+
+// membershipLoopAt: h is the header of `for _, k := range table { if x == k { <hit> } }` where table is a
+// package-level constant table, x does not change in the loop, the body does nothing else and falls back to the
+// header when the test fails.
+func membershipLoopAt(h *ssa.BasicBlock) (memLoop, bool) {
+	var ml memLoop
+	if len(h.Instrs) == 0 || len(h.Succs) != 2 {
+		return ml, false
+	}
+	hif, ok := h.Instrs[len(h.Instrs)-1].(*ssa.If)
+	if !ok {
+		return ml, false
+	}
+	// loop control on a counter
+	bo, ok := hif.Cond.(*ssa.BinOp)
+	if !ok || (bo.Op != token.LSS && bo.Op != token.NEQ) {
+		return ml, false
+	}
+	body, exit := h.Succs[0], h.Succs[1]
+	if len(body.Succs) != 2 {
+		return ml, false
+	}
+	bif, ok := body.Instrs[len(body.Instrs)-1].(*ssa.If)
+	if !ok {
+		return ml, false
+	}
+	eq, ok := bif.Cond.(*ssa.BinOp)
+	if !ok || eq.Op != token.EQL {
+		return ml, false
+	}
+	var subj, elem ssa.Value
+	if tableElementOf(unconv(eq.Y)) != nil {
+		subj, elem = eq.X, eq.Y
+	} else if tableElementOf(unconv(eq.X)) != nil {
+		subj, elem = eq.Y, eq.X
+	} else {
+		return ml, false
+	}
+	// failing test goes straight back to the header
+	if body.Succs[1] != h {
+		return ml, false
+	}
+	// the body only loads the element: no calls, stores or other effects
+	for _, in := range body.Instrs {
+		switch in.(type) {
+		case *ssa.Call, *ssa.Store, *ssa.MapUpdate, *ssa.Send, *ssa.Go, *ssa.Defer:
+			return ml, false
+		}
+	}
+	// the subject is defined outside the loop
+	if in, isIn := subj.(ssa.Instruction); isIn {
+		if in.Block() == body || in.Block() == h {
+			return ml, false
+		}
+	}
+	g := tableElementOf(unconv(elem))
+	if tab, okS := globalStringTable(g); okS {
+		for _, k := range tab {
+			ml.consts = append(ml.consts, strconv.Quote(k))
+		}
+	} else if tab, okI := globalIntTable(g); okI {
+		for _, k := range tab {
+			ml.consts = append(ml.consts, strconv.FormatInt(k, 10))
+		}
+	} else {
+		return ml, false
+	}
+	ml.subject, ml.body, ml.hit, ml.exit = subj, body, body.Succs[0], exit
+	ml.inLoop = map[*ssa.BasicBlock]bool{h: true, body: true}
+	return ml, true
 }
